@@ -24,6 +24,7 @@ import (
 	"strings"
 	"sync"
 	"time"
+	"unicode/utf8"
 
 	"github.com/pgavlin/dawn"
 	"github.com/pgavlin/dawn/label"
@@ -771,6 +772,43 @@ func sumStream(r *rng, n int, scratch string) ([]pair, error) {
 	return out, nil
 }
 
+// keyStream: labels over valid text, U+FFFD, and bytes that are not valid UTF-8 — the key a record carries for them in
+// its JSON text, and whether a fresh load reads the same label back
+func keyStream(r *rng, n int) []pair {
+	var out []pair
+	pieces := []string{"a", "source://:", "caf", ".txt", "\xe9", "\xff", "\x80", "\xc3", "\xc3\xa9", "\uFFFD", "\uFFFD--", "\uFFFDe9", "-", "e", "9", "%", " ", "\xf0\x9f", "\xf0\x9f\x98\x80"}
+	for i := 0; i < n; i++ {
+		var sb strings.Builder
+		for k := 0; k < 1+r.below(6); k++ {
+			sb.WriteString(pieces[r.below(len(pieces))])
+		}
+		key := sb.String()
+		var items []string
+		for j := 0; j < len(key); {
+			c, size := utf8.DecodeRuneInString(key[j:])
+			switch {
+			case c == utf8.RuneError && size == 1:
+				items = append(items, fmt.Sprintf("b%d", key[j]))
+			case c == utf8.RuneError:
+				items = append(items, "r")
+			default:
+				items = append(items, fmt.Sprintf("c%d", c))
+			}
+			j += size
+		}
+		jk, back, err := dawn.VerifDepKeyJSON(key)
+		if err != nil {
+			continue
+		}
+		var cps []string
+		for _, c := range jk {
+			cps = append(cps, fmt.Sprint(int(c)))
+		}
+		out = append(out, pair{"key " + strings.Join(items, ","), fmt.Sprintf("%s %d", strings.Join(cps, ","), b2i(back == key))})
+	}
+	return out
+}
+
 // ---------------------------------------------------------------- main
 
 func main() {
@@ -1002,6 +1040,16 @@ func main() {
 		}
 		for _, p := range pathStream(r, np) {
 			fmt.Fprintf(out, "C\tbuild.path\t%s\t%s\n", p.in, p.out)
+		}
+	}
+	if *prop == "C02" {
+		r := &rng{s: *seed ^ 0xC02}
+		nk := 300
+		if *tier == "thorough" {
+			nk = 20000
+		}
+		for _, p := range keyStream(r, nk) {
+			fmt.Fprintf(out, "C\tbuild.keys\t%s\t%s\n", p.in, p.out)
 		}
 	}
 	if *prop == "C13" {
